@@ -1082,7 +1082,7 @@ def r_patch_example_no_base(m, rnd):
                     v[f2.name] = ('null',) if (f2.type is None or f2.type.nullable) else None
                 else:
                     v[f2.name] = ('null',) if f2.type.nullable else f2.default
-                if v[f2.name] is None:
+                if v[f2.name] is None or v[f2.name][0] == 'tag':
                     v[f2.name] = ('lit', 1)
                 d2.examples.append(ExampleDef(label='no_label999', doc=None, values=v, patch_only=True))
             yield d.kind, apply2
